@@ -18,6 +18,9 @@ class VDI(AlignedStream):
         if self.header.Signature != VDI_SIGNATURE:
             raise Error("Not a VDI header")
 
+        if self.header.Version != 0x00010001:
+            raise Error(f"Unsupported VDI version: 0x{self.header.Version:08x}")
+
         fh.seek(-1, 2)
         self.file_size = fh.tell()
 
